@@ -28,6 +28,7 @@ from .. import core, dsdlgen, tool
 
 FAKE_T = 1700000000.0
 MODES = [0o444, 0o644, 0o600, 0o664, 0o400]
+API_LANG = {"c": "c", "cpp": "cpp", "py": "py"}
 LANGS = {"c": ["--target-language", "c"], "cpp": ["--target-language", "cpp", "--experimental-languages"], "py": ["--target-language", "py"]}
 
 opts_strategy = st.fixed_dictionaries(
@@ -49,6 +50,8 @@ def opt_argv(lang: str, o: dict) -> typing.List[str]:
         a.append("--no-overwrite")
     if o["omit"]:
         a.append("--omit-serialization-support")
+    if o.get("asserts"):
+        a.append("--enable-serialization-asserts")
     if "trim" in o["pp"]:
         a.append("--pp-trim-trailing-whitespace")
     if "limit0" in o["pp"]:
@@ -59,8 +62,10 @@ def opt_argv(lang: str, o: dict) -> typing.List[str]:
 
 
 def content_key(o: dict) -> str:
+    if o.get("api"):
+        return f"api|{o['omit']}"
     sup = "as-needed" if (o["omit"] and o["support"] == "always") else o["support"]
-    return f"{o['omit']}|{sup}|{o['pp']}"
+    return f"{o['omit']}|{sup}|{o['pp']}|{bool(o.get('asserts'))}"
 
 
 def snap(d: pathlib.Path) -> typing.Dict[str, typing.Tuple[int, bytes]]:
@@ -98,8 +103,11 @@ class Env:
             os.rename(self.out, aside)
             try:
                 self.out.mkdir()
-                rc, so, se = tool.run_sub(opt_argv(self.lang, o2) + ["--outdir", str(self.out), str(self.root)], fake_time=FAKE_T, drop_caps=True)
-                self.runs += 1
+                if o2.get("api"):
+                    rc, se = self.run_api(o2)
+                else:
+                    rc, so, se = tool.run_sub(opt_argv(self.lang, o2) + ["--outdir", str(self.out), str(self.root)], fake_time=FAKE_T, drop_caps=True)
+                    self.runs += 1
                 if rc != 0:
                     raise core.HarnessError(f"model run failed: {se[-800:]}")
                 self.model[k] = {p: c for p, (_, c) in snap(self.out).items()}
@@ -108,8 +116,30 @@ class Env:
                 os.rename(aside, self.out)
         return self.model[k]
 
-    def run(self, o: dict) -> typing.Tuple[int, str]:
-        rc, so, se = tool.run_sub(opt_argv(self.lang, o) + ["--outdir", str(self.out), str(self.root)], fake_time=FAKE_T, drop_caps=True)
+    def run(self, o: dict, extra: typing.Sequence[str] = ()) -> typing.Tuple[int, str]:
+        if o.get("api"):
+            return self.run_api(o)
+        rc, so, se = tool.run_sub(opt_argv(self.lang, o) + list(extra) + ["--outdir", str(self.out), str(self.root)], fake_time=FAKE_T, drop_caps=True)
+        self.runs += 1
+        if rc == 97:
+            raise core.HarnessError("capability drop ineffective: cannot observe permission bits as root")
+        return rc, se
+
+    def run_api(self, o: dict) -> typing.Tuple[int, str]:
+        """
+        The documented library helper nunavut.generate_types(language, root, out, omit_serialization_support, is_dryrun,
+        allow_overwrite, ...) in a fresh interpreter with dropped capabilities.  It has no --file-mode / post-processor
+        arguments: the file mode is the library default, which the model run (same call into an empty directory) shows.
+        """
+        code = (
+            "import sys, pathlib, nunavut\n"
+            "try:\n"
+            f"    nunavut.generate_types({API_LANG[self.lang]!r}, pathlib.Path({str(self.root)!r}), pathlib.Path({str(self.out)!r}), omit_serialization_support={bool(o['omit'])!r}, "
+            f"allow_overwrite={not o['no_overwrite']!r}, allow_unregulated_fixed_port_id=True, include_experimental_languages=True)\n"
+            "except PermissionError as e:\n"
+            "    sys.stderr.write('PermissionError: %s' % e); sys.exit(3)\n"
+        )
+        rc, so, se = tool.run_sub([], fake_time=FAKE_T, drop_caps=True, exec_code=code)
         self.runs += 1
         if rc == 97:
             raise core.HarnessError("capability drop ineffective: cannot observe permission bits as root")
@@ -159,6 +189,23 @@ DIRECTED_HISTORY_B = [
     {"support": "never", "mode": 0o600},
     {"no_overwrite": True, "support": "always"},
 ]
+# library helper and non-generating invocations over a populated directory
+DIRECTED_HISTORY_D = [
+    {"mode": 0o444},
+    {"look": "--list-outputs"},
+    {"look": "--dry-run"},
+    {"look": "--list-inputs"},
+    {"api": True, "no_overwrite": True},
+    {"api": True},
+    {"support": "only", "mode": 0o444, "asserts": True},
+    {"api": True, "no_overwrite": True},
+]
+DIRECTED_HISTORY_E = [
+    {"support": "only", "mode": 0o444},
+    {"api": True, "no_overwrite": True},
+    {"api": True, "omit": True},
+    {"api": True, "no_overwrite": True},
+]
 DIRECTED_HISTORY_C = [
     {"plant": "type", "content": "", "mode": 0o640},
     {"no_overwrite": True, "support": "never"},
@@ -195,7 +242,7 @@ def make_machine(ctx: core.Ctx):
         def run_tool(self, o):
             self.do_run(o)
 
-        @precondition(lambda self: getattr(self, "last_opts", None) is not None)
+        @precondition(lambda self: getattr(self, "last_opts", None) is not None and not self.last_opts.get("api"))
         @rule(dim=st.sampled_from(["mode", "mode", "mode", "no_overwrite", "support", "pp", "omit"]), o=opts_strategy)
         def rerun_with_one_change(self, dim, o):
             """The previous invocation again with ONE option changed (same content + other --file-mode, same mode + other content ...)."""
@@ -207,6 +254,29 @@ def make_machine(ctx: core.Ctx):
                 new["no_overwrite"] = False  # the varied option is to take effect
             ctx.event("rule.rerun-with-one-change." + dim)
             self.do_run(new)
+
+        @rule(o=opts_strategy)
+        def run_library_helper(self, o):
+            """nunavut.generate_types(...) -- the documented library route -- over whatever the directory holds."""
+            ctx.event("rule.library-helper")
+            self.do_run({"api": True, "omit": o["omit"], "no_overwrite": o["no_overwrite"], "mode": None, "support": "as-needed", "pp": ""})
+
+        @precondition(lambda self: self.env is not None and any(self.env.out.rglob("*.*")))
+        @rule(kind=st.sampled_from(["--list-outputs", "--dry-run", "--list-inputs"]), o=opts_strategy)
+        def look_only(self, kind, o):
+            """A non-generating invocation in the middle of a history leaves every file as it is (content and mode)."""
+            env = self.env
+            assert env is not None
+            self.trace.append({"op": "look", "kind": kind, "opts": o})
+            ctx.event("rule.look-only." + kind)
+            before = snap(env.out)
+            env.run(o, extra=[kind])
+            after = snap(env.out)
+            if after != before:
+                changed = sorted(k for k in set(before) | set(after) if before.get(k) != after.get(k))
+                p0 = changed[0]
+                self.fail(f"C12|{env.lang}|non-generating-invocation-changed-output|{kind}",
+                          f"{kind} changed {changed[:4]}: {p0} " + (f"mode {oct(before[p0][0])} -> {oct(after[p0][0])}" if p0 in before and p0 in after and before[p0][1] == after[p0][1] else "content / existence changed"))
 
         def do_run(self, o):
             env = self.env
@@ -242,7 +312,7 @@ def make_machine(ctx: core.Ctx):
                     self.fail(f"C12|{lang}|generated-file-missing", f"{p} missing after a successful run")
                 if after[p][1] != c:
                     self.fail(f"C12|{lang}|content-differs-from-fresh-directory-run|{'support' if 'nunavut' in p else 'type-or-namespace'}-file", f"{p} differs from what the same options produce in an empty directory")
-                if after[p][0] != o["mode"]:
+                if not o.get("api") and after[p][0] != o["mode"]:
                     self.fail(f"C12|{lang}|wrong-file-mode|{'support' if 'nunavut' in p else 'type-or-namespace'}-file", f"{p} has mode {oct(after[p][0])}, requested {oct(o['mode'])}")
             for p, (m, c) in before.items():
                 if p in model:
@@ -322,7 +392,7 @@ def run(ctx: core.Ctx):
     n = 20 if ctx.quick else 120
     machine = make_machine(ctx)
     # directed histories first (one per target): every option dimension is varied once on its own over a populated directory
-    for lang, history in [(l, h) for l in ("c", "py", "cpp") for h in (DIRECTED_HISTORY, DIRECTED_HISTORY_B, DIRECTED_HISTORY_C)]:
+    for lang, history in [(l, h) for l in ("c", "py", "cpp") for h in (DIRECTED_HISTORY, DIRECTED_HISTORY_B, DIRECTED_HISTORY_C, DIRECTED_HISTORY_D, DIRECTED_HISTORY_E)]:
         m = machine()
         m.env = Env(DIRECTED_UNIVERSE, lang)
         m.trace.append({"op": "init", "lang": lang, "directed": True})
@@ -341,6 +411,8 @@ def run(ctx: core.Ctx):
                     f.write_text(step["content"])
                     os.chmod(f, step["mode"])
                     m.trace.append({"op": "plant", "file": rel, "mode": step["mode"], "content": step["content"]})
+                elif "look" in step:
+                    m.look_only.__wrapped__(m, step["look"], dict(base)) if hasattr(m.look_only, "__wrapped__") else m.look_only(step["look"], dict(base))
                 elif "chmod_all" in step:
                     files = sorted(p for p in m.env.out.rglob("*") if p.is_file())
                     for f in files:
@@ -371,6 +443,8 @@ def replay(ctx: core.Ctx, case):
             try:
                 if t["op"] == "run":
                     m.run_tool.__wrapped__(m, t["opts"]) if hasattr(m.run_tool, "__wrapped__") else m.run_tool(t["opts"])
+                elif t["op"] == "look":
+                    m.look_only.__wrapped__(m, t["kind"], t["opts"]) if hasattr(m.look_only, "__wrapped__") else m.look_only(t["kind"], t["opts"])
                 elif t["op"] == "chmod":
                     for f in t["files"]:
                         if (m.env.out / f).exists():
